@@ -2,7 +2,7 @@
    A case is a list of operations, each of which appends one entry to a pool of values
    (or a failure code); the result is the flat list of numbers the Rust harness
    (/verif/harness_value/src/value.rs) prints for the same case. *)
-From RS Require Import Lib.Tac Lib.Outcome Lib.Bits Lib.Sweep Ty.Ty Value.ValueModel.
+From RS Require Import Lib.Tac Lib.Outcome Lib.Bits Lib.Sweep Ty.Ty Value.ValueModel Value.ValueWord Value.ValueBuffer.
 Import ListNotations.
 Local Open Scope N_scope.
 
@@ -26,8 +26,10 @@ Inductive pop : Type :=
 | OCompact (t : ty) (bytes : list N)      (* from_compact_bits *)
 | OPrune (i : nat) (t : ty)
 | OMach (t : ty) (bytes : list N)         (* Bit Machine output: from_padded_bits of the output frame *)
-| OMachW (i : nat).                       (* Bit Machine output of a witness node holding pool[i]:
+| OMachW (i : nat)                        (* Bit Machine output of a witness node holding pool[i]:
                                              write_value copies iter_padded, exec reads it back *)
+| OCtx8 (mid : list N) (count : N) (buffer : list N)   (* Value::ctx8 *)
+| OIsType (i : nat) (t : ty).             (* pool[i] again, and Value::is_of_type(t) as extra number *)
 
 (* a pool entry: a value or a failure code
    1 = None (accessor / prune / missing operand)   2 = EarlyEndOfStream
@@ -116,6 +118,19 @@ Definition run_op (pool : list entry) (op : pop) : entry * list N :=
          | Panic _ => EN 9
          | OutOfFuel => EN 8
          end), [])
+  | OCtx8 mid count buffer =>
+      (match v_ctx8 mid count buffer with
+       | Ok (Some v) => EV v
+       | Ok None => EN 3
+       | Err _ => EN 2
+       | Panic _ => EN 9
+       | OutOfFuel => EN 8
+       end, [])
+  | OIsType i t =>
+      match get pool i with
+      | Some v => (EV v, [b2n (is_of_type v t)])
+      | None => (EN 1, [])
+      end
   end.
 
 Definition entry_code (e : entry) : N := match e with EV _ => 0 | EN c => c end.
